@@ -11,7 +11,7 @@ enum Kind : int { PUT, GET, CLEAR, OVR_ON, OVR_OFF, NKINDS };
 static const char *kind_name[] = {"put", "get", "clear", "override-on", "override-off"};
 struct Op { int kind; int64_t v; };
 struct Phase { int kind; size_t count; };
-struct Case { int type; size_t cap; std::vector<Op> ops; std::vector<Phase> phases; };   // type 0: octet_ring 1: u32 2: s16; phases: scripted bulk steps, observed after each phase
+struct Case { int type; size_t cap; std::vector<Op> ops; std::vector<Phase> phases; };   // type 0: octet_ring 1: u32 2: s16 3: double; phases: scripted bulk steps, observed after each phase
 
 inline std::string serialise(const Case &c, size_t upto = (size_t)-1) {
     std::string s = vp::fmt("ring %d %zu\n", c.type, c.cap);
@@ -31,10 +31,17 @@ inline bool parse(const std::string &text, Case &c) {
         if (k < 0 || w.size() < 2) return false;
         c.ops.push_back({k, strtoll(w[1].c_str(), 0, 10)});
     }
-    return have && c.cap > 0 && c.type >= 0 && c.type <= 2;
+    return have && c.cap > 0 && c.type >= 0 && c.type <= 3;
 }
 
-// uniform view on the three instantiations
+// element <-> model key: integral element types are the key itself; the double ring stores (key - 20) / 8, i.e. negative and fractional
+// values (an element that travels through an integer on its way is then no longer what was put in)
+template <class T> inline T to_elem(int64_t v) { return (T)v; }
+template <> inline double to_elem<double>(int64_t v) { return (double)(v - 20) / 8.0; }
+template <class T> inline int64_t from_elem(T x) { return (int64_t)x; }
+template <> inline int64_t from_elem<double>(double x) { double k = x * 8.0; return (k == (double)(int64_t)k) ? (int64_t)k : INT64_MIN + 7; }
+
+// uniform view on the instantiations
 template <class R, class T> struct Api {
     void (*init)(R *, T *, size_t);
     size_t (*size)(const R *);
@@ -68,14 +75,14 @@ template <class R, class T> struct Ring {
         size_t n = 0;
         for (; !rb_iter_done(&it); rb_iter_advance(&it), n++) {
             if (n >= m.q.size()) return "iter-old-to-new-too-long";
-            if ((int64_t)api.inspect(&r, &it) != m.q[n]) return "iter-old-to-new-element";
+            if (from_elem<T>(api.inspect(&r, &it)) != m.q[n]) return "iter-old-to-new-element";
         }
         if (n != m.q.size()) return "iter-old-to-new-steps";
         api.iter(&it, &r, RING_BUFFER_ITER_NEW_TO_OLD);
         n = 0;
         for (; !rb_iter_done(&it); rb_iter_advance(&it), n++) {
             if (n >= m.q.size()) return "iter-new-to-old-too-long";
-            if ((int64_t)api.inspect(&r, &it) != m.q[m.q.size() - 1 - n]) return "iter-new-to-old-element";
+            if (from_elem<T>(api.inspect(&r, &it)) != m.q[m.q.size() - 1 - n]) return "iter-new-to-old-element";
         }
         if (n != m.q.size()) return "iter-new-to-old-steps";
         return "";
@@ -84,12 +91,12 @@ template <class R, class T> struct Ring {
     std::string step_quiet(Model &m, const Op &op) {
         switch (op.kind) {
         case PUT:
-            api.put(&r, (T)op.v);
-            if (m.q.size() < m.cap) m.q.push_back((int64_t)(T)op.v);
-            else if (m.ovr) { m.q.pop_front(); m.q.push_back((int64_t)(T)op.v); }
+            api.put(&r, to_elem<T>(op.v));
+            if (m.q.size() < m.cap) m.q.push_back(from_elem<T>(to_elem<T>(op.v)));
+            else if (m.ovr) { m.q.pop_front(); m.q.push_back(from_elem<T>(to_elem<T>(op.v))); }
             break;
         case GET: {
-            int64_t got = (int64_t)api.get(&r), want = 0;
+            int64_t got = from_elem<T>(api.get(&r)), want = 0;
             if (!m.q.empty()) { want = m.q.front(); m.q.pop_front(); }
             if (got != want) return "get:wrong-element";
             break;
@@ -103,12 +110,12 @@ template <class R, class T> struct Ring {
     std::string step(Model &m, const Op &op) {
         switch (op.kind) {
         case PUT:
-            api.put(&r, (T)op.v);
-            if (m.q.size() < m.cap) m.q.push_back((int64_t)(T)op.v);
-            else if (m.ovr) { m.q.pop_front(); m.q.push_back((int64_t)(T)op.v); }
+            api.put(&r, to_elem<T>(op.v));
+            if (m.q.size() < m.cap) m.q.push_back(from_elem<T>(to_elem<T>(op.v)));
+            else if (m.ovr) { m.q.pop_front(); m.q.push_back(from_elem<T>(to_elem<T>(op.v))); }
             break;
         case GET: {
-            int64_t got = (int64_t)api.get(&r);
+            int64_t got = from_elem<T>(api.get(&r));
             int64_t want = 0;
             if (!m.q.empty()) { want = m.q.front(); m.q.pop_front(); }
             if (got != want) return "get:wrong-element";
@@ -142,7 +149,8 @@ inline std::string run_case(const Case &c) {
     switch (c.type) {
     case 0: return run_typed(C19_API(octet_ring, uint8_t), c);
     case 1: return run_typed(C19_API(u32_ring, uint32_t), c);
-    default: return run_typed(C19_API(s16_ring, int16_t), c);
+    case 2: return run_typed(C19_API(s16_ring, int16_t), c);
+    default: return run_typed(C19_API(f64_ring, double), c);
     }
 }
 
